@@ -47,24 +47,22 @@ Fixpoint emap_loop (cnt i : nat) (index : Z) (m : list Z) (after : bool) (eidx :
       else emap_loop c (S i) index m1 after eidx ob2
   end.
 
-(* TRACE: for(i<new_N){ if(i==index) counter+=N; for(j<new_N){ if(j==index) counter++; Ks[i*new_N+j]=Ks[i*new_N+j+counter]; } } *)
-Fixpoint ks_row (cnt j i newN index : nat) (k : list Z) (counter ob : nat) : list Z * nat * nat :=
-  match cnt with
-  | O => (k, counter, ob)
-  | S c =>
-      let counter1 := if j =? index then S counter else counter in
-      let src := i * newN + j + counter1 in
-      let dst := i * newN + j in
-      ks_row c (S j) i newN index (upd k dst (nth src k 0%Z)) counter1
-             (ob + chk (length k) src + chk (length k) dst)
-  end.
-Fixpoint ks_rows (cnt i newN n index : nat) (k : list Z) (counter ob : nat) : list Z * nat :=
+(* TRACE: drop row and column [index] of the N x N matrix, in place:
+   for(i<new_N){ oi = i<index ? i : i+1; for(j<new_N){ oj = j<index ? j : j+1; Ks[i*new_N+j] = Ks[oi*old_N+oj]; } } *)
+Definition ks_src (oldN index a b : nat) : nat :=
+  (if a <? index then a else S a) * oldN + (if b <? index then b else S b).
+Fixpoint ks_row (cnt j i newN oldN index : nat) (k : list Z) (ob : nat) : list Z * nat :=
   match cnt with
   | O => (k, ob)
   | S c =>
-      let counter1 := if i =? index then counter + n else counter in
-      let '(k1, c1, ob1) := ks_row newN 0 i newN index k counter1 ob in
-      ks_rows c (S i) newN n index k1 c1 ob1
+      let src := ks_src oldN index i j in
+      let dst := i * newN + j in
+      ks_row c (S j) i newN oldN index (upd k dst (nth src k 0%Z)) (ob + chk (length k) src + chk (length k) dst)
+  end.
+Fixpoint ks_rows (cnt i newN oldN index : nat) (k : list Z) (ob : nat) : list Z * nat :=
+  match cnt with
+  | O => (k, ob)
+  | S c => let '(k1, ob1) := ks_row newN 0 i newN oldN index k ob in ks_rows c (S i) newN oldN index k1 ob1
   end.
 
 Definition hybrid_kind (h : hyb) : bool := match kind h with INone => false | _ => true end.
@@ -93,7 +91,7 @@ Definition hremove (s : state) (h : hyb) (index : Z) (keep : bool) : state * hyb
         | ITrace =>
             if (hmode h =? 1) || (hmode h =? 3) then
               let '(m, eidx, ob') := emap_loop (eN h) 0 index (emap h) false (-1)%Z (hoob h) in
-              let '(k, ob'') := ks_rows (sN s - 1) 0 (sN s - 1) (sN s) i (ks h) 0 ob' in
+              let '(k, ob'') := ks_rows (sN s - 1) 0 (sN s - 1) (sN s) i (ks h) ob' in
               (* encounter_index is int, encounter_N_active unsigned: -1 compares as UINT_MAX *)
               mkH (kind h) (hmode h) (dcrit h) m (eN h - 1)
                   (if (0 <=? eidx)%Z && (eidx <? eNact h)%Z then (eNact h - 1)%Z else eNact h)
